@@ -1,6 +1,7 @@
 package rules
 
 import (
+	"fmt"
 	"go/ast"
 	"go/token"
 	"go/types"
@@ -52,6 +53,7 @@ func runC20(p *eng.Prog, r *eng.Report, tier string) {
 	}
 	g := f.Graph()
 	c20AccumulatorsPerIteration(c, "C20.8", f)
+	c20WholeListsHashed(c, "C20.22", f)
 	c20SortsCopies(c, "C20.9")
 	c20ComparatorsAreOrders(c, "C20.10")
 	c20DecoderKeepsEveryValue(c, "C20.11")
@@ -1084,4 +1086,78 @@ func xmlLangTagsNamespaced(c *cx, id string) {
 		}
 	}
 	c.r.Floor(id, "struct fields decoded from a lang attribute", n, 5)
+}
+
+// c20WholeListsHashed (C20.22): the verification string is built from ALL
+// identities, ALL features and ALL forms of the value (XEP-0115 5.1; forms
+// without a FORM_TYPE included - two values that differ only in such a form
+// are different values, and the property asks for different input to the
+// hash). AppendHash sorts copies of the three lists (C20.9); each copy is a
+// complete one: every definition of a local list of identities / features /
+// forms is `append(<nil>, recv.F...)`, a make + copy of the field, or an
+// unconditional append inside a range over the field. A loop that keeps only
+// the forms passing a test drops the others from the hash.
+func c20WholeListsHashed(c *cx, id string, f *eng.Fn) {
+	g := f.Graph()
+	fieldOf := map[string]string{"[]disco/info.Identity": "recv.Identity", "[]disco/info.Feature": "recv.Features", "[]form.Data": "recv.Form"}
+	seen := map[*types.Var]bool{}
+	n := 0
+	for _, d := range g.AllDefs() {
+		v := d.Var
+		fld, ok := fieldOf[eng.TypeStr(v.Type())]
+		if !ok || seen[v] {
+			continue
+		}
+		seen[v] = true
+		for _, d2 := range g.DefsOf(v) {
+			if d2.Kind == eng.DefZero || d2.Kind == eng.DefRange {
+				continue
+			}
+			n++
+			okd, why := false, fmt.Sprintf("defined (kind %d, type %s) by %s", d2.Kind, eng.TypeStr(v.Type()), f.Prog.NodeStr(d2.Node))
+			if d2.Kind == eng.DefPlain && d2.RHS != nil {
+				if cl, isCall := ast.Unparen(d2.RHS).(*ast.CallExpr); isCall {
+					switch f.CalleeID(cl) {
+					case "builtin.append":
+						if cl.Ellipsis.IsValid() && len(cl.Args) == 2 && f.Norm(cl.Args[1], nil) == fld {
+							if g.LocalVar(cl.Args[0]) == nil {
+								okd = true // append(<nil slice>, field...)
+							}
+						}
+						if len(cl.Args) == 2 && !cl.Ellipsis.IsValid() && g.LocalVar(cl.Args[0]) == v {
+							// list = append(list, elem) in a range over the field, on every iteration
+							for p := g.Parent(d2.Node); p != nil; p = g.Parent(p) {
+								rs, isRange := p.(*ast.RangeStmt)
+								if !isRange {
+									continue
+								}
+								if f.Norm(rs.X, nil) != fld {
+									break
+								}
+								body, head, _, okl := g.LoopPoints(rs)
+								node := d2.Node
+								if okl && g.MustPassBefore(body, head, func(q eng.Point, x ast.Node) bool { return x == node }, nil) {
+									okd = true
+								} else {
+									why = "the append is skipped for some elements of " + fld
+								}
+								break
+							}
+						}
+					case "builtin.make":
+						for _, cp := range f.Calls("builtin.copy") {
+							if g.LocalVar(cp.Args[0]) == v && f.Norm(cp.Args[1], nil) == fld && len(cl.Args) >= 2 && strings.Contains(f.Norm(cl.Args[1], nil), "builtin.len("+fld+")") {
+								okd = true
+							}
+						}
+						if !okd && len(cl.Args) == 3 {
+							okd = true // make(T, 0, n): filled by the appends, which are checked on their own
+						}
+					}
+				}
+			}
+			c.r.Check(id, f, "list "+f.LocalName(v)+" that is hashed", "P: every definition of a local list of identities / features / forms is a complete copy of "+fld, d2.Node.Pos(), okd, why+": elements left out do not reach the hash, values that differ in them get the same verification string")
+		}
+	}
+	c.r.Floor(id, "definitions of the hashed lists", n, 3)
 }
